@@ -88,6 +88,9 @@ pub struct ErrPlan {
     pub critical_at: Option<u32>,
     /// the k-th call replaces the error handler (by an equivalent one)
     pub replace_at: Option<u32>,
+    /// slow handler: after each call the error hook task is stalled for this many virtual ms
+    #[serde(default)]
+    pub slow_ms: u64,
 }
 
 #[derive(Clone, Debug, Serialize, Deserialize, PartialEq, Eq, Hash)]
@@ -139,6 +142,12 @@ pub struct E2Scn {
     /// seed for the iteration order of the fs worker's registered-path set (hook H6)
     #[serde(default)]
     pub hash_seed: u64,
+    /// slow filter: filtering event `id` stalls the action worker task for `ms`
+    #[serde(default)]
+    pub filter_slow: Vec<(u32, u64)>,
+    /// slow watcher backend: the k-th watch/unwatch call stalls the fs worker task for `ms`
+    #[serde(default)]
+    pub watch_slow: Vec<(u32, u64)>,
 }
 
 impl Default for E2Scn {
@@ -165,6 +174,8 @@ impl Default for E2Scn {
             quit: None,
             probe: false,
             hash_seed: 0,
+            filter_slow: vec![],
+            watch_slow: vec![],
         }
     }
 }
@@ -289,8 +300,12 @@ pub struct SimFilterer;
 impl Filterer for SimFilterer {
     fn check_event(&self, event: &Event, _priority: Priority) -> Result<bool, RuntimeError> {
         let id = event_id(event);
-        let verdict = lib(|l| l.scn.as_ref().map(|s| s.verdict(id)).unwrap_or(0));
+        let (verdict, slow) = lib(|l| {
+            let s = l.scn.as_ref();
+            (s.map(|s| s.verdict(id)).unwrap_or(0), s.and_then(|s| s.filter_slow.iter().find(|f| f.0 == id).map(|f| f.1)).unwrap_or(0))
+        });
         log(Ev::Filter { id, verdict });
+        crate::ctx::stall_current_task(slow);
         match verdict {
             1 => Ok(false),
             2 => Err(RuntimeError::External(format!("sim-filter-error-{id}").into())),
@@ -369,7 +384,8 @@ impl SimWatcher {
             let mid: Vec<Change> = scn.mid_apply.iter().filter(|(at, _)| *at == k).map(|(_, c)| c.clone()).collect();
             (k, fail, mid)
         });
-        let _ = k;
+        let slow = lib(|l| l.scn.as_ref().and_then(|s| s.watch_slow.iter().find(|w| w.0 == k).map(|w| w.1)).unwrap_or(0));
+        crate::ctx::stall_current_task(slow);
         // a "concurrent thread" changes the configuration in the middle of the apply
         for c in &mid {
             log(Ev::Note { what: "mid-apply-change", a: k as i64, b: 0 });
@@ -427,6 +443,10 @@ impl Drop for SimWatcher {
 pub fn install_watcher_factory() {
     watchexec::verif::set_watcher_factory(Some(Box::new(|kind, handler| {
         let poll = matches!(kind, WatcherKind::Poll(_));
+        let poll_ms = match kind {
+            WatcherKind::Poll(d) => d.as_millis() as i64,
+            _ => -1,
+        };
         let (w, fail) = lib(|l| {
             let c = l.creations;
             l.creations += 1;
@@ -437,7 +457,7 @@ pub fn install_watcher_factory() {
             }
             (w, fail)
         });
-        log(Ev::WatcherNew { w, poll, ok: !fail });
+        log(Ev::WatcherNew { w, poll_ms, ok: !fail });
         if fail {
             return Err(CriticalError::FsWatcherInit { kind, err: watchexec::error::FsWatcherError::Create(notify::Error::generic("sim-create-fails")) });
         }
@@ -586,6 +606,7 @@ fn install_error_handler(config: &Config, generation: u32) {
             apply_change(&Change::ReplaceErrorHandler);
             log(Ev::ErrAction { n, what: "replace" });
         }
+        crate::ctx::stall_current_task(scn.err_plan.slow_ms);
         if scn.err_plan.elevate_at == Some(n) {
             log(Ev::ErrAction { n, what: "elevate" });
             hook.elevate();
@@ -762,9 +783,10 @@ async fn e2_root(scn: E2Scn) {
 /// wait until the action worker has been idle (no batch delivered, no handler running) for `quiet` ms
 async fn settle(quiet: u64) {
     for _ in 0..500 {
-        let before = lib(|l| l.batch_no);
+        let before = with_run(|r| r.seq);
         sleep_ms(quiet).await;
-        let (after, busy) = lib(|l| (l.batch_no, l.in_handler));
+        let (after, busy) = (with_run(|r| r.seq), lib(|l| l.in_handler));
+        // nothing at all was recorded for a whole stretch and no handler is running
         if after == before && !busy {
             return;
         }
